@@ -217,6 +217,9 @@ def Apod.toCfg : Apod α → Apod α
   | .gaussian fwhm => .gaussian (sigfigs (fwhm / micro))
   | a => a
 
+/-- `x.rem_euclid(360.)`: a rounded azimuth of 360.0000 is written as 0 (`fix:` for D6c) -/
+def wrap360 (x : α) : α := remEuclid x 360.0
+
 /-- `vacuum_wavelength_to_frequency` and its inverse (`n = ONE`) -/
 def wlToFreq (lam : α) : α := twoPiC / (lam * 1.0)
 def freqToWl (om : α) : α := twoPiC / (om * 1.0)
@@ -419,7 +422,7 @@ def Crystal.toCfg (c : Crystal α) : CrystalCfg α :=
 tree's unrounded `idler.waist_position_um` -/
 def Beam.toCfg (b : Beam α) (waistPos : α) (roundPos : Bool) : BeamCfg α :=
   { wavelengthNm := sigfigs (b.wavelength / nano), thetaDeg := some (sigfigs (b.theta / deg)),
-    thetaExternalDeg := none, phiDeg := sigfigs (b.phi / deg),
+    thetaExternalDeg := none, phiDeg := wrap360 (sigfigs (b.phi / deg)),
     waistUm := sigfigs (b.waistX / micro),
     waistPositionUm := .param (if roundPos then sigfigs (waistPos / micro) else waistPos / micro) }
 
